@@ -6,7 +6,8 @@ from harness.core import use_repo, Divergence
 from harness import zoo
 
 SHAPES = {'s1': (2, 3), 's2': (3, 2)}
-LEAF_KINDS = ['range', 'roi_rect', 'catroi', 'element', 'category', 'mask', 'slice', 'flood', 'ineq', 'multirange', 'roi_poly']
+LEAF_KINDS = ['range', 'roi_rect', 'catroi', 'element', 'category', 'mask', 'slice', 'flood', 'ineq', 'multirange', 'roi_poly',
+              'ineq_linked']      # a selection on the OTHER dataset's attribute: its mask on d depends on the link in force
 
 
 def fvals(shape, ver):
@@ -97,7 +98,7 @@ def params(kind, ver, shape):
         return [(0, 2), (1, 3), (0, 1), (1, 2)][ver]                              # range on the last axis
     if kind == 'flood':
         return [1.1, 1.6, 2.0, 3.0][ver]
-    if kind == 'ineq':
+    if kind in ('ineq', 'ineq_linked'):
         return None
     raise ValueError(kind)
 
@@ -133,6 +134,8 @@ def build_leaf(env, kind, ver):
         return S.FloodFillSubsetState(d, i, tuple(0 for _ in shp), p)
     if kind == 'ineq':
         return f > 0.3
+    if kind == 'ineq_linked':
+        return env.o.id['x'] > 0.5
     raise ValueError(kind)
 
 
@@ -208,6 +211,14 @@ def live_leaves(tree, state, slot):
 
 
 def evaluate(env, state, subset, kind):
+    from glue.core.exceptions import IncompatibleAttribute
+    try:
+        return _evaluate(env, state, subset, kind)
+    except IncompatibleAttribute:
+        return np.asarray([-777.0])        # the selection cannot be evaluated here (no link): an answer like any other
+
+
+def _evaluate(env, state, subset, kind):
     d = env.d
     if kind == 'mask':
         return np.asarray(d.get_mask(state)).copy()
@@ -327,7 +338,7 @@ def applicable(beh):
     kinds = beh['kinds']
     for stp in beh['steps']:
         a = stp['act']
-        if a['op'] == 'MutateLeaf' and kinds[a['a']] == 'ineq':
+        if a['op'] == 'MutateLeaf' and kinds[a['a']] in ('ineq', 'ineq_linked'):
             return False
         if a['op'] == 'UpdateFromData' and a['a'] == 'newshape' and any(k in ('mask', 'flood', 'slice', 'element') for k in kinds.values()):
             return False
